@@ -2,7 +2,7 @@
 from .. import bb, chain as K, gen_chain as GC, gen_scripts as G, scriptcheck as S
 
 NAMESPACE = "Rbp.Props.C16"
-REQUIRED = ["single_push_fork", "single_push_btc", "lines_in_chain_order", "valid_iff_scalar_encoding", "lossy_output_valid", "lossy_valid_id"]
+REQUIRED = ["single_push_fork", "single_push_btc", "lines_in_chain_order", "valid_iff_scalar_encoding", "lossy_output_valid", "lossy_valid_id", "exit0_lines_are_those_of_delivered"]
 LEAN_FILES = ["Rbp/Model/Script.lean", "Rbp/Model/Lossy.lean", "Rbp/Proofs/Utf8Spec.lean", "Rbp/Proofs/Lossy.lean"]
 RULE = ("OP_RETURN payload reported by the real evaluator (the string the opreturn callback prints) vs the Lean model, all 8 version bytes; payload families: ASCII, multi-byte UTF-8, "
         "invalid UTF-8 (overlongs, surrogates, truncated tails), empty; every push form that can carry them (direct / PUSHDATA1/2/4; 76..80 bytes need PUSHDATA1), lengths up to 65536; "
